@@ -37,6 +37,7 @@ def jobs(tier):
     for tc2 in (5, 13, 14):        # discarded left operand of a comma; cast to void
         E("ND_COMMA", 5, tc2)
     E("ND_CAST", 13, 14); E("ND_CAST", 5, 14)
+    E("ND_COND", 13, 14); E("ND_COND", 14, 13)       # c ? long double : void  and the mirror image: nothing may stay on the x87 stack
     for f in range(14):
         js.append(Job(name=f"cast-balance-from-{TI[f]}", src="castbal.c", group="C20 conversion balance", units=["type.c"], mode="plain", defs={"FROM": str(f)},
                       cut=["error", "error_tok", "error_at", "warn_tok"], no_checks=["signed-overflow", "undefined-shift"], timeout=600,
